@@ -302,7 +302,7 @@ class Check:
         if by:
             os.makedirs(self.replaydir, exist_ok=True)
         for (klass, where), vs in by.items():
-            path = os.path.join(self.replaydir, f"{klass}.json")
+            path = os.path.join(self.replaydir, re.sub(r"[^A-Za-z0-9_.=-]+", "_", klass)[:150] + ".json")
             with open(path, "w") as f:
                 json.dump({"property": self.prop, "class": klass, "where": where, "count": len(vs),
                            "cases": vs[:5]}, f, indent=1)
